@@ -20,6 +20,7 @@ package c14
 import (
 	"bytes"
 	"encoding/hex"
+	"encoding/json"
 	"fmt"
 	"net"
 	"testing"
@@ -780,6 +781,19 @@ var (
 // genuine token, the mutation (kind, pos, val, extra) of it must never be accepted as a proof, and
 // neither must tok itself under another key.
 func FuzzTokenMutation(f *testing.F) {
+	if vf.ReplayMode() {
+		// the driver replays a recorded failure by running this target as a plain test: run the recorded
+		// case once instead of the seed corpus
+		f.Add([]byte{}, uint8(0), uint16(0), byte(0), []byte{})
+		done := false
+		f.Fuzz(func(t *testing.T, _ []byte, _ uint8, _ uint16, _ byte, _ []byte) {
+			if !done {
+				done = true
+				replayFuzzCase(t)
+			}
+		})
+		return
+	}
 	u := vf.U("token-fuzz")
 	g := handshake.NewTokenGenerator(fuzzKey)
 	g2 := handshake.NewTokenGenerator(fuzzKey2)
@@ -816,88 +830,127 @@ func FuzzTokenMutation(f *testing.F) {
 
 	f.Fuzz(func(t *testing.T, tok []byte, kind uint8, pos uint16, val byte, extra []byte) {
 		u.Case()
-		base, err := g.DecodeToken(tok)
-		valid := err == nil && base != nil
-		var mutated []byte
-		class := ""
-		if len(tok) > 0 {
-			switch kind % 6 {
-			case 0:
-				mutated, class = applyMutation(tok, nil, Mutation{Kind: "flip", Pos: int(pos)})
-			case 1:
-				mutated, class = applyMutation(tok, nil, Mutation{Kind: "trunc", Pos: int(pos)})
-			case 2:
-				if len(extra) > 0 {
-					mutated, class = applyMutation(tok, nil, Mutation{Kind: "append", Data: extra})
-				}
-			case 3:
-				mutated, class = applyMutation(tok, nil, Mutation{Kind: "setbyte", Pos: int(pos), Val: val})
-			case 4:
-				if len(extra) > 0 {
-					mutated, class = applyMutation(tok, nil, Mutation{Kind: "insert", Pos: int(pos), Data: extra})
-				}
-			case 5:
+		c := FuzzCase{Tok: tok, Kind: kind, Pos: pos, Val: val, Extra: extra}
+		if v := vf.Guard("token-fuzz", func() *vf.Verdict { return fuzzBody(g, g2, c, u) }); v != nil {
+			if u.Report(v, c) {
+				t.Fatalf("VIOLATION %s: %s", v.Sig, v.Detail)
 			}
 		}
-		if !valid {
-			// not a genuine token: nothing is known about what a mutation of it may turn into (it may turn
-			// back into a seed); only totality is checked here
-			u.Class("base-invalid")
-			if mutated != nil {
-				_, _ = g.DecodeToken(mutated)
+	})
+}
+
+// FuzzCase is one input of FuzzTokenMutation.
+type FuzzCase struct {
+	Tok   []byte `json:"tok"`
+	Kind  uint8  `json:"kind"`
+	Pos   uint16 `json:"pos"`
+	Val   byte   `json:"val"`
+	Extra []byte `json:"extra,omitempty"`
+}
+
+// replayFuzzCase re-runs a failure recorded by FuzzTokenMutation (unit token-fuzz).
+func replayFuzzCase(t *testing.T) {
+	raw, ok := vf.ReplayCase(t, "token-fuzz")
+	if !ok {
+		t.Skip("replay file is for another unit")
+	}
+	var c FuzzCase
+	if err := json.Unmarshal(raw, &c); err != nil {
+		t.Fatalf("bad replay case: %v", err)
+	}
+	u := vf.U("token-fuzz")
+	u.Case()
+	g, g2 := handshake.NewTokenGenerator(fuzzKey), handshake.NewTokenGenerator(fuzzKey2)
+	if v := vf.Guard("token-fuzz", func() *vf.Verdict { return fuzzBody(g, g2, c, u) }); v != nil {
+		u.Fail(t, v, c)
+	}
+}
+
+func fuzzBody(g, g2 *handshake.TokenGenerator, c FuzzCase, u *vf.Unit) *vf.Verdict {
+	tok, kind, pos, val, extra := c.Tok, c.Kind, c.Pos, c.Val, c.Extra
+	base, err := g.DecodeToken(tok)
+	valid := err == nil && base != nil
+	var mutated []byte
+	class := ""
+	if len(tok) > 0 {
+		switch kind % 6 {
+		case 0:
+			mutated, class = applyMutation(tok, nil, Mutation{Kind: "flip", Pos: int(pos)})
+		case 1:
+			mutated, class = applyMutation(tok, nil, Mutation{Kind: "trunc", Pos: int(pos)})
+		case 2:
+			if len(extra) > 0 {
+				mutated, class = applyMutation(tok, nil, Mutation{Kind: "append", Data: extra})
 			}
-			if len(tok) == 0 {
-				return
+		case 3:
+			mutated, class = applyMutation(tok, nil, Mutation{Kind: "setbyte", Pos: int(pos), Val: val})
+		case 4:
+			if len(extra) > 0 {
+				mutated, class = applyMutation(tok, nil, Mutation{Kind: "insert", Pos: int(pos), Data: extra})
 			}
-			// Use the bytes as a multi-byte mutation instead: issue a genuine token here and xor tok over it
-			// starting at pos (wrapping), optionally followed by the single mutation. The result must not be
-			// accepted unless it is the genuine token again.
-			a := fuzzAddrs[int(kind>>4)%2]
-			var genuine []byte
-			if val&1 == 0 {
-				genuine, err = g.NewToken(a, 0)
-			} else {
-				genuine, err = g.NewRetryToken(a, cidOf(extra[:min(len(extra), 20)]), cidOf(tok[:min(len(tok), 20)]))
-			}
-			if err != nil {
-				t.Fatalf("issuing a token failed: %v", err)
-			}
-			overlaid := append([]byte(nil), genuine...)
-			for j, b := range tok {
-				overlaid[(int(pos)+j)%len(overlaid)] ^= b
-			}
-			class = "overlay"
-			if kind%6 == 1 { // and truncate
-				overlaid, _ = applyMutation(overlaid, nil, Mutation{Kind: "trunc", Pos: int(val)})
-				class = "overlay+trunc"
-			} else if kind%6 == 2 && len(extra) > 0 {
-				overlaid = append(overlaid, extra...)
-				class = "overlay+append"
-			}
-			if bytes.Equal(overlaid, genuine) {
-				return
-			}
-			if v := forgeOracle(g, overlaid, class, fuzzAddrs, vf.Scratch()); v != nil {
-				t.Fatalf("VIOLATION %s: %s (genuine %x)", v.Sig, v.Detail, genuine)
-			}
-			u.Class(class)
-			return
+		case 5:
 		}
-		u.Class("base-genuine")
-		if d2, err := g2.DecodeToken(tok); err == nil && d2 != nil {
-			for _, a := range fuzzAddrs {
-				if d2.ValidateRemoteAddr(a) {
-					t.Fatalf("VIOLATION C14/token/forgery-accepted: genuine token decodes under another key and validates for %v: %x", a, tok)
-				}
-			}
+	}
+	if !valid {
+		// Not a genuine token: nothing is known about what a mutation of it may turn into (it may turn
+		// back into a seed), so for the bytes themselves only totality is checked.
+		u.Class("base-invalid")
+		if mutated != nil {
+			_, _ = g.DecodeToken(mutated)
 		}
-		if mutated == nil || bytes.Equal(mutated, tok) {
-			return
+		if len(tok) == 0 {
+			return nil
 		}
-		sc := vf.Scratch()
-		if v := forgeOracle(g, mutated, class, fuzzAddrs, sc); v != nil {
-			t.Fatalf("VIOLATION %s: %s (base %x)", v.Sig, v.Detail, tok)
+		// Use the bytes as a multi-byte mutation instead: issue a genuine token here and xor tok over it
+		// starting at pos (wrapping), optionally followed by a truncation / extension. The result must not
+		// be accepted unless it is the genuine token again.
+		a := fuzzAddrs[int(kind>>4)%2]
+		var genuine []byte
+		if val&1 == 0 {
+			genuine, err = g.NewToken(a, 0)
+		} else {
+			genuine, err = g.NewRetryToken(a, cidOf(extra[:min(len(extra), 20)]), cidOf(tok[:min(len(tok), 20)]))
+		}
+		if err != nil {
+			return vf.Bad("C14/token/issue-error", "issuing a token failed: %v", err)
+		}
+		overlaid := append([]byte(nil), genuine...)
+		for j, b := range tok {
+			overlaid[(int(pos)+j)%len(overlaid)] ^= b
+		}
+		class = "overlay"
+		if kind%6 == 1 { // and truncate
+			overlaid, _ = applyMutation(overlaid, nil, Mutation{Kind: "trunc", Pos: int(val)})
+			class = "overlay+trunc"
+		} else if kind%6 == 2 && len(extra) > 0 {
+			overlaid = append(overlaid, extra...)
+			class = "overlay+append"
+		}
+		if bytes.Equal(overlaid, genuine) {
+			return nil
+		}
+		if v := forgeOracle(g, overlaid, class, fuzzAddrs, vf.Scratch()); v != nil {
+			v.Detail += fmt.Sprintf(" (genuine token %x)", genuine)
+			return v
 		}
 		u.Class(class)
-	})
+		return nil
+	}
+	u.Class("base-genuine")
+	if d2, err := g2.DecodeToken(tok); err == nil && d2 != nil {
+		for _, a := range fuzzAddrs {
+			if d2.ValidateRemoteAddr(a) {
+				return vf.Bad("C14/token/forgery-accepted", "otherkey: genuine token decodes under another key and validates for %v: %x", a, tok)
+			}
+		}
+	}
+	if mutated == nil || bytes.Equal(mutated, tok) {
+		return nil
+	}
+	if v := forgeOracle(g, mutated, class, fuzzAddrs, vf.Scratch()); v != nil {
+		v.Detail += fmt.Sprintf(" (base token %x)", tok)
+		return v
+	}
+	u.Class(class)
+	return nil
 }
